@@ -133,7 +133,8 @@ Eff(st, o) ==
     [] o.op \in {"mul", "rmul"} ->
          IF o.i < 0 THEN Fail("ValueError", st)
          ELSE IF HasFinal(seq) THEN Fail("TransformError", st)
-         ELSE IF o.i = 0 THEN Res(<<>>, "", MkMap(mk, LAMBDA v : 0), <<>>, <<>>, DOMAIN mk)
+         \* p * 0 is the empty pipeline: its markers may collapse to level 0 or be dropped (no list analogue); they must not stay out of bounds
+         ELSE IF o.i = 0 THEN Res(<<>>, "", MkMap(mk, LAMBDA v : 0), <<>>, <<>>, {})
          ELSE Res(Repeat(seq, o.i), "", mk, Id(n) \o Zeros(n * (o.i - 1)), Zeros(n * o.i), DOMAIN mk)
     [] o.op = "slice" ->
          LET idx == SlPositions(n, o.i, o.j, o.s)  lo == SlLo(n, o.i, o.s)  hi == SlHi(n, o.j, o.s)
